@@ -146,7 +146,7 @@ func c09Concurrent(run *vlib.Run, pols map[string]vlib.PolicySpec, probeNrs []ui
 		}
 		res, err := vlib.RunChild(bin, "conc", &vlib.ChildCase{Conc: cc}, false, 60*time.Second)
 		if err != nil || res.TimedOut || res.Line("done") == nil {
-			run.Inconclusive(fmt.Sprintf("concurrent-load child did not finish: %v %s", err, tail(res.Stderr, 200)))
+			run.SoftInconclusive(fmt.Sprintf("concurrent-load child did not finish: %v %s", err, tail(res.Stderr, 200)))
 			return
 		}
 		l := res.Line("conc")
@@ -202,7 +202,7 @@ func c09Concurrent(run *vlib.Run, pols map[string]vlib.PolicySpec, probeNrs []ui
 				map[string]any{"check": "C09", "case": &vlib.ChildCase{Conc: cc}, "records": recs, "final": final})
 		case porcupine.Unknown:
 			run.Count("linearizability_checker_timeouts", 1)
-			run.Inconclusive("linearizability checker timed out")
+			run.SoftInconclusive("linearizability checker timed out")
 		}
 		if i == 0 {
 			run.Sample(4, map[string]any{"concurrent_history": recs, "final": final})
